@@ -427,8 +427,8 @@ pub fn c07(tier: Tier) -> i32 {
     // (b) years graph x every filter
     let a = years_alphabet();
     let n = match tier {
-        Tier::Quick => 4,
-        Tier::Thorough => 5,
+        Tier::Quick => 5,
+        Tier::Thorough => 6,
     };
     let ctxr: &Ctx = &ctx;
     let acc2 = a.explore(n, Acc::new, |acc, idx| visit_c07(ctxr, &env, acc, &a.ledger(idx)), Acc::merge);
